@@ -2,6 +2,7 @@ package mon
 
 import (
 	"os"
+	"runtime"
 	"strconv"
 	"testing"
 	"time"
@@ -108,4 +109,37 @@ func TestDebugReplay(t *testing.T) {
 		t.Log(l)
 	}
 	t.Logf("findings=%v", c.res.Findings)
+}
+
+// TestDebugLeak counts the goroutines that generated scenarios of one mode leave behind (development aid).
+func TestDebugLeak(t *testing.T) {
+	mode := os.Getenv("VERIF_DEBUG_LEAK")
+	if mode == "" {
+		t.Skip("development aid")
+	}
+	r := newRun(t, "C07", "exploration")
+	before := runtime.NumGoroutine()
+	n := 600
+	t0 := time.Now()
+	for i := 0; i < n; i++ {
+		rng := r.Cfg.caseRNG("leak-"+mode, i)
+		g := prioGen{Vers: allVers, Dividers: allDividers, Mode: mode}
+		if mode == "starve-terminate" {
+			g = prioGen{Vers: []string{"v1", "v1", "v1s"}, Dividers: []string{"rate", "rate", "fair", "hashw", "toprem"}, Mode: "terminate", Starve: true}
+		}
+		if mode == "addrm" || mode == "starvedrm" {
+			g.Vers = []string{"v1"}
+		}
+		if mode == "starve-general" {
+			g = prioGen{Vers: []string{"v1", "v1", "v1s"}, Dividers: allDividers, Mode: "general", Starve: true}
+		}
+		sc := genPrioScenario(rng, g)
+		b := runtime.NumGoroutine()
+		r.prioCase(t, sc)
+		if a := runtime.NumGoroutine(); a > b+0 && os.Getenv("VERIF_DEBUG_LEAK_V") != "" {
+			t.Logf("#%d +%d goroutines: %s never_ends=%v starved=%v", i, a-b, sc.class(), sc.NeverEnds, sc.Starved)
+		}
+	}
+	time.Sleep(200 * time.Millisecond)
+	t.Logf("mode %s: %d scenarios in %s, goroutines %d -> %d", mode, n, time.Since(t0), before, runtime.NumGoroutine())
 }
